@@ -2,7 +2,8 @@
    Output: per domain (in the order of `doms`) the failing pairs
    (i, j, impl (==,cmp,hash), model, structurally equal),
    the ids whose recorded hash stream differs from hash_raw, pairs whose dump/term identity is off,
-   and the failing descriptor pairs (i, j, impl (==,cmp), model). *)
+   the failing descriptor pairs (i, j, impl (==,cmp), model),
+   and the failing descriptor pairs under a history (i, j, left warmed, right warmed). *)
 From Verif Require Import EqOrdRun EqOrdDescRun EqOrdCasesGen.
 
-Eval vm_compute in (map dom_diag doms, map dom_stream_diag doms, map dom_spec_diag doms, deqdom_diag ddom_eq).
+Eval vm_compute in (map dom_diag doms, map dom_stream_diag doms, map dom_spec_diag doms, deqdom_diag ddom_eq, deqdom_wdiag ddom_eq).
